@@ -3,6 +3,7 @@ package sim
 import (
 	"fmt"
 	"os"
+	"regexp"
 	"runtime"
 	"sort"
 	"strings"
@@ -208,8 +209,12 @@ func (e *Engine) Violate(prop, class, format string, args ...interface{}) {
 	if i := strings.IndexByte(first, '\n'); i >= 0 {
 		first = first[:i]
 	}
+	// belt and braces: goroutine numbers and pointers never enter the hashed history
+	first = volatileRE.ReplaceAllString(first, "#")
 	e.Logf("VIOLATION", "%s %s: %s", prop, class, first)
 }
+
+var volatileRE = regexp.MustCompile(`goroutine \d+|0x[0-9a-f]{6,}`)
 
 // ---------------------------------------------------------------------------
 // park points
